@@ -16,6 +16,7 @@ package immutable
 
 import (
 	"fmt"
+	"sync"
 
 	"github.com/openGemini/openGemini/lib/readcache"
 	"go.uber.org/zap"
@@ -25,6 +26,7 @@ type PageCacheReader struct {
 	r             *tsspFileReader
 	trailer       *Trailer
 	init          bool
+	initOnce      sync.Once
 	startOffset   int64
 	endOffset     int64
 	maxPageId     int64
@@ -140,10 +142,11 @@ func (pcr *PageCacheReader) ReadVariablePageSize(offset int64, size uint32, buf 
 
 // read fileBytes of pages
 func (pcr *PageCacheReader) ReadFixPageSize(offset int64, size uint32, buf *[]byte, ioPriority int) ([]byte, *readcache.CachePage, error) {
-	if !pcr.init {
+	// several queries can read the same file concurrently
+	pcr.initOnce.Do(func() {
 		pcr.Init()
 		pcr.init = true
-	}
+	})
 	var err error
 	var pageBuf []byte
 	var cachePage *readcache.CachePage
